@@ -1978,6 +1978,10 @@ vinsertpair(VGROUP *vg,  /* IN: vgroup struct */
     /* clear error stack */
     HEclear();
 
+    /* the member count is a 16-bit quantity in memory and in the file */
+    if (vg->nvelt == (uint16)0xffff)
+        HGOTO_ERROR(DFE_RANGE, FAIL);
+
     if ((int)vg->nvelt >= vg->msize) {
         vg->msize *= 2;
 
